@@ -962,12 +962,15 @@ func (b *Builder) PatchConfig() ([]byte, error) {
 				DemonConfig.AddWString("Content-type: */*")
 			}
 		} else {
+			// the payload's header list is the listener's plus the host header; the
+			// listener's own list has to stay as it is (it is shared by every build)
+			var Headers = append([]string{}, Config.Config.Headers...)
 			if len(Config.Config.HostHeader) > 0 {
-				Config.Config.Headers = append(Config.Config.Headers, "Host: "+Config.Config.HostHeader)
+				Headers = append(Headers, "Host: "+Config.Config.HostHeader)
 			}
 
-			DemonConfig.AddInt(len(Config.Config.Headers))
-			for _, headers := range Config.Config.Headers {
+			DemonConfig.AddInt(len(Headers))
+			for _, headers := range Headers {
 				logger.Debug(headers)
 				DemonConfig.AddWString(headers)
 			}
